@@ -273,6 +273,7 @@ def assertAppliesLayer (mt : Str → Str → Bool) (s : LayerRuleState) (g : PGr
     else
       let c := convertAliases r.cfg
       if configMissing c then .err .improperlyConfigured
+      else if droppedAbsent g c then .err .lookupError
       else if c.behavior.inconsistent then .err .ruleInconsistency
       else
         match c.importDir, c.subjects, c.objects with
